@@ -86,6 +86,14 @@ func newReportSim(config SimulatorConfig) (*reportSim, error) {
 		legacy:     config.Mode == ICWS88,
 	}
 
+	// a limit of the core size or more is no limit at all
+	if sim.readLimit > sim.m {
+		sim.readLimit = sim.m
+	}
+	if sim.writeLimit > sim.m {
+		sim.writeLimit = sim.m
+	}
+
 	sim.mem = make([]Instruction, sim.m)
 
 	return sim, nil
